@@ -105,6 +105,19 @@ func (m *cModel) Tags() string {
 	return t
 }
 
+func (m *cModel) compileRules(opt string) (listed, unlisted []string) {
+	s := &m.s
+	listed = append([]string{}, s.pending...)
+	unlisted = append([]string{}, s.pendingUnl...)
+	if s.elems == "" && len(listed)+len(unlisted) == 0 {
+		listed = append(listed, "missing-entry", "missing-exit")
+	}
+	if opt == "allpred" || opt == "anypred" {
+		listed = append(listed, "invalid-option-combination")
+	}
+	return listed, unlisted
+}
+
 // appendTo applies an Append* call to the modelled chain.
 func (m *cModel) appendTo(n *cModel, c *Call) {
 	s := &m.s
@@ -158,10 +171,14 @@ func (m *cModel) Step(c *Call) (Model, Expect, bool) {
 	case stDead:
 		// Append* has no error result: the model keeps following the calls (the implementation does not make a
 		// rejected Compile final), so that a later accepted Compile can be compared with a fresh construction
+		nv := 0
 		if c.Op == "capp" {
 			m.appendTo(n, c)
+		} else {
+			l, u := m.compileRules(c.Opt)
+			nv = len(l) + len(u)
 		}
-		return n, Expect{HasErr: c.IsCompile(), V: vReject, From: stDead, DeadPos: s.deadPos, DeadCompile: true, DeadRules: s.deadRules, DeadOp: "compile"}, true
+		return n, Expect{HasErr: c.IsCompile(), V: vReject, NViol: nv, From: stDead, DeadPos: s.deadPos, DeadCompile: true, DeadRules: s.deadRules, DeadOp: "compile"}, true
 	case stCompiled:
 		if c.IsCompile() {
 			n.s.later += fmt.Sprintf(",%d", c.Idx)
@@ -175,14 +192,7 @@ func (m *cModel) Step(c *Call) (Model, Expect, bool) {
 		return n, Expect{HasErr: false, V: vAccept, From: stLive}, true
 	}
 	// compile
-	listed := append([]string{}, s.pending...)
-	unlisted := append([]string{}, s.pendingUnl...)
-	if s.elems == "" && len(listed)+len(unlisted) == 0 {
-		listed = append(listed, "missing-entry", "missing-exit")
-	}
-	if c.Opt == "allpred" || c.Opt == "anypred" {
-		listed = append(listed, "invalid-option-combination")
-	}
+	listed, unlisted := m.compileRules(c.Opt)
 	nviol := len(listed) + len(unlisted)
 	listed = dedupe(listed)
 	if len(listed)+len(unlisted) == 0 {
